@@ -20,7 +20,7 @@ from .. import decgen, names, snapshot
 from .. import declang as L
 
 OPS = ["mothers", "modes", "global", "chains", "chains_stable", "expand", "print", "repr", "grammar", "number", "mutate", "mutate_deep", "reparse", "reparse_off_on",
-       "other_instance"]
+       "other_instance", "abandoned_query", "refused_query"]
 RULE = ("one case = one history (text, operation sequence) on one parser instance, compared with a fresh instance after every step; non-trivial = the history "
         "contains a mutation of a returned value or a re-parse, and the file has >= 1 derived table; distinct by hash of (text, operations)")
 ANCHORS = ["decaylanguage.dec.dec:DecFileParser._add_decays_to_be_copied", "decaylanguage.dec.dec:DecFileParser._add_charge_conjugate_decays",
@@ -224,6 +224,36 @@ class Hist:
                         mutate(ctx, last, deep=False)
                     elif op == "mutate_deep":
                         mutate(ctx, last, deep=True)
+                    elif op == "abandoned_query":
+                        # a query abandoned at a random line of the library's own code (Ctrl-C in the middle of it): the parser is what it was
+                        from .. import trace  # noqa: PLC0415
+
+                        fp = trace.Failpoint.get()
+                        which = r.choice(["chains", "expand", "print", "modes", "global"])
+                        fn = {"chains": lambda: p.build_decay_chains(m), "expand": lambda: p.expand_decay_modes(m),
+                              "print": lambda: _quiet_print(p, m), "modes": lambda: p.list_decay_modes(m),
+                              "global": lambda: [getattr(p, q)() for q in ("dict_aliases", "dict_definitions", "dict_model_aliases", "list_charge_conjugate_decays")]}[which]
+                        _, n = fp.count(fn)
+                        status, _where = fp.inject(r.randint(1, max(1, n)), fn)
+                        ctx.hit("query-abandoned-at-a-random-line:" + status)
+                        last = None
+                    elif op == "refused_query":
+                        # a question the library legitimately refuses (unknown particle, contradictory print options): the refusal changes nothing
+                        which = r.choice(["chains", "expand", "modes", "print-contradictory", "print-unknown"])
+                        try:
+                            if which == "chains":
+                                p.build_decay_chains("NoSuchParticle" + str(i))
+                            elif which == "expand":
+                                p.expand_decay_modes("NoSuchParticle" + str(i))
+                            elif which == "modes":
+                                p.list_decay_modes("NoSuchParticle" + str(i))
+                            elif which == "print-contradictory":
+                                _quiet_print(p, m, normalize=True, scale=0.5)
+                            else:
+                                _quiet_print(p, "NoSuchParticle" + str(i))
+                        except Exception:  # noqa: BLE001, S110   the refusal itself is not what this property is about
+                            ctx.hit("query-refused-by-the-library")
+                        last = None
                     elif op == "other_instance":
                         # another parser instance in the same interpreter (other text, shared names): must not disturb this one
                         q = other_instance(ctx, self.text, i)
@@ -256,6 +286,13 @@ class Hist:
 
 
 _others: dict = {}
+
+
+def _quiet_print(p, m, **kw):
+    buf = io.StringIO()
+    with contextlib.redirect_stdout(buf):
+        p.print_decay_modes(m, **kw)
+    return buf.getvalue()
 
 
 def other_instance(ctx, text, i):
